@@ -107,6 +107,43 @@ CLAIMED = {
         ref="DESIGN.md §6 C06",
         technique="Lean 4 proof (traversal invariant by induction; width/range from C03/C01 lemmas) + executed Lean predicate on real packages",
     ),
+    "C02": dict(
+        text="Proved in Lean: a checking pass with its own pass class, placed after the last rewriting pass, runs on every module below "
+        "every top whatever earlier passes and calls completed (repeat_pass_sees_every_module, over the abstract runner for any DAG); "
+        "out-of-range indices, zero steps and empty selections are rejected for every width (bad_index_rejected, from C03); the array "
+        "width rule accepts exactly w and n*w and hands element k bits [k*w,(k+1)*w). The fault classes themselves are decided by "
+        "correspondence: single-fault mutants of valid generated designs (12 classes, sites drawn from every sub-connectable of every "
+        "connection, top and deep, scalar/bus/slice/concat/reference/bundle/anonymous/array/pair) and generated ill-formed designs, with "
+        "the declarative Sem.src as judge of ill-formedness; elaborate, to_proto and netlist must all raise.",
+        note="The checking passes (ConnTypes, Orphanage, MarkModules) are not modelled in Lean; their completeness rests on the mutation "
+        "correspondence. Clashing module names are an export-level fault: elaborate() alone is not required to notice them.",
+        ref="DESIGN.md §6 C02",
+        technique="Lean 4 proof (runner invariant, index/array rules) + single-fault mutation correspondence judged by a declarative model",
+    ),
+    "C07": dict(
+        text="Proved in Lean over the abstract runner (any module DAG, sharing, pass behaviour, fuel and prior state): a completed visit "
+        "leaves its pass done on everything reachable; a pass class never touches another class's done set; a module a pass completed on "
+        "is never rewritten by it again; re-visiting is a no-op; a visit touches only the visited module and modules below it. Not "
+        "proved: that every interleaving of calls ends in the canonical state (needs per-pass stability facts) — decided by "
+        "correspondence: all orders / kinds / groupings of elaborate / to_proto / netlist calls over the modules of generated design DAGs "
+        "(shared children, bundle ports, bundle-port reference groups), parents built before or after their children were elaborated, "
+        "each history in a fresh process, packages compared byte for byte with fresh single-call packages; freeze checked.",
+        note="Runner model abstracts passes as functions; BundleFlattener's THE_CACHE and _pre_flattening_io are exercised only by the "
+        "histories. History enumeration is exhaustive for designs of <= 3 (quick) modules, sampled beyond.",
+        ref="DESIGN.md §6 C07",
+        technique="Lean 4 proof (runner invariants by induction on the depth-first visit) + exhaustive small-history differential runs in fresh processes",
+    ),
+    "C08": dict(
+        text="Proved in Lean over the abstract runner with failing passes: a module on which a pass raised is marked failed and lacks that "
+        "pass's done mark; any later visit of any pass reaching it through a not-yet-completed path does not complete (never exported); "
+        "failure is permanent and failed modules are never rewritten; modules not below the visited top are untouched whatever happens; "
+        "a retry fails again. Decided by correspondence: every (pass position, module) injection point through custom pass lists, real "
+        "design faults, and a generator body raising once, each followed by retry / retry with the default elaborator / export of every "
+        "module not containing the offending one / an unrelated design, in one fresh process per scenario and compared with fresh-process packages.",
+        note="Exception texts and the generator cache's behaviour after a failure are covered by the correspondence only.",
+        ref="DESIGN.md §6 C08",
+        technique="Lean 4 proof (failure invariants of the runner) + fault-injection correspondence in fresh processes",
+    ),
 }
 NOT_YET = {}
 
